@@ -1,6 +1,6 @@
 (* Props/C03.v — pinned statements for property C03 (encoder output is well-formed, deterministic,
    shortest-form CBOR).  Nothing but statements closed by `exact`; proofs live in Proofs/. *)
-From MC Require Import Bytes Cbor Item Acc Encoder Methods Calls EncoderFacts ItemFacts MethodsWf CallsFacts.
+From MC Require Import Bytes Cbor Item Acc Encoder Methods Calls Types EncoderFacts ItemFacts MethodsWf CallsFacts.
 Local Open Scope N_scope.
 
 (* Every Encoder method that writes a whole item produces exactly the RFC 8949 preferred
@@ -40,6 +40,22 @@ Theorem C03_balanced : forall es,
   exists ch, run_calls (flat_map calls_of es) = Some ch /\ flat ch = flat_map ser es.
 Proof. exact calls_write_forest. Qed.
 
+(* encode::ArrayIter / MapIter emit the definite form iff the iterator's size hint is exact (and honest),
+   else begin … end; either way exactly the items, each in the form its own encoder gives it. *)
+Theorem C03_iter_array : forall low up items es,
+  Forall2 (fun cs e => flat cs = ser e) items es -> low < 18446744073709551616 ->
+  (hint_exact low up = true -> low = len es) ->
+  flat (enc_array_iter low up items) =
+    if hint_exact low up then ser (EArray (min_width (len es)) es) else ser (EArrayI es).
+Proof. exact array_iter_form. Qed.
+
+Theorem C03_iter_map : forall low up pairs es,
+  Forall2 (fun cs e => flat cs = ser e) pairs es -> low < 18446744073709551616 ->
+  (hint_exact low up = true -> low = len es / 2) ->
+  flat (enc_map_iter low up pairs) =
+    if hint_exact low up then ser (EMap (min_width (len es / 2)) es) else ser (EMapI es).
+Proof. exact map_iter_form. Qed.
+
 Example C03_balanced_example :
   let e := EArrayI [EMap W0 [EUInt W1 255; ETextI [(W0, [97]); (W0, [])]]; ETag W2 256 (ESimple 22)] in
   wf e = true /\ short e = true /\ utf8_ok e = true /\
@@ -50,5 +66,7 @@ Print Assumptions C03_methods.
 Print Assumptions C03_wellformed.
 Print Assumptions C03_reference.
 Print Assumptions C03_balanced.
+Print Assumptions C03_iter_array.
+Print Assumptions C03_iter_map.
 Print Assumptions C03_refusals.
 Print Assumptions C03_heads.
